@@ -206,3 +206,25 @@ Example handed_back_nonvacuous :
   all_phases_done (fst (scenario BGDeploy 10 false (PInit :: map PUpgrade [IPct 50; IPct 100] ++ [PFinal]) (Some 3%nat) w0)) = true /\
   fst (scenario BGDeploy 10 false (PInit :: map PUpgrade [IPct 50; IPct 100] ++ [PFinal]) (Some 3%nat) w0) = [[true; false]; [false]; [false]; [false]].
 Proof. vm_compute. auto. Qed.
+
+(* C06: the marker is written last.  From a workload nobody controls, whatever Patch fails and however often Initialize is
+   attempted: if the workload carries the release marker afterwards, its HPA (if any) has been detached *)
+Theorem marker_means_hpa_detached k n f w0 errs w :
+  fresh w0 = true -> scenario k n false [PInit] f w0 = (errs, w) -> w_claimed w = true -> w_hpa w <> Some false.
+Proof.
+  intros Hf H Hc. unfold fresh in Hf. apply andb_true_iff in Hf. destruct Hf as [Hf _]. apply andb_true_iff in Hf. destruct Hf as [Hc0 Hs0].
+  assert (HA : StA k (cfg k w0) w0).
+  { split; [destruct (w_claimed w0); [discriminate|reflexivity]|]. split; [destruct (w_saved w0); [discriminate|reflexivity]|reflexivity]. }
+  cbn [scenario] in H. destruct (try_phase k n false PInit f w0) as [[es w1] f1] eqn:E1. injection H as _ <-.
+  unfold try_phase, run_phase in E1.
+  destruct (initialize k f w0) as [[e1 x1] g1] eqn:I1. destruct (init_step _ _ _ _ _ _ _ HA I1) as [Ho1 Hk1].
+  destruct e1; cbn [negb] in E1; [|injection E1 as _ <- _; destruct (Ho1 eq_refl) as [_ [_ [_ Hh]]]; exact Hh].
+  specialize (Hk1 eq_refl).
+  destruct (initialize k g1 x1) as [[e2 x2] g2] eqn:I2. destruct (init_step _ _ _ _ _ _ _ Hk1 I2) as [Ho2 Hk2].
+  destruct e2; cbn [negb] in E1; [|injection E1 as _ <- _; destruct (Ho2 eq_refl) as [_ [_ [_ Hh]]]; exact Hh].
+  specialize (Hk2 eq_refl).
+  destruct (initialize k g2 x2) as [[e3 x3] g3] eqn:I3. destruct (init_step _ _ _ _ _ _ _ Hk2 I3) as [Ho3 Hk3].
+  injection E1 as _ <- _. destruct e3.
+  - destruct (Hk3 eq_refl) as [Hcl _]. congruence.
+  - destruct (Ho3 eq_refl) as [_ [_ [_ Hh]]]. exact Hh.
+Qed.
